@@ -1,6 +1,7 @@
 import RedactVerif.Props.C01
 import RedactVerif.Props.FactsConsts
 import RedactVerif.Props.FactsSkelBuffer
+import RedactVerif.Props.TransEscape
 /-
 C10 — escaping removes every marker from arbitrary bytes and nothing else.
 
